@@ -25,7 +25,7 @@ func genStoreOps(r *core.Rand, c *stCase, n int) {
 		}
 	}
 	for i := 0; i < n; i++ {
-		switch r.Pick(36, 6, 8, 6, 7, 6, 14, 9, 11, 3) {
+		switch r.Pick(36, 6, 8, 6, 7, 6, 14, 9, 11, 3, 4, 2) {
 		case 0:
 			c.Cmds = append(c.Cmds, genAdd(r, c))
 			nAdds++
@@ -49,9 +49,12 @@ func genStoreOps(r *core.Rand, c *stCase, n int) {
 			c.Cmds = append(c.Cmds, stCmd{Op: "evict"})
 		case 6:
 			p := probes(c)
-			if r.Chance(0.5) {
+			switch r.Intn(4) {
+			case 0:
 				c.Cmds = append(c.Cmds, p...)
-			} else {
+			case 1:
+				c.Cmds = append(c.Cmds, kProbes(c)...)
+			default:
 				c.Cmds = append(c.Cmds, p[r.Intn(len(p))])
 			}
 		case 7:
@@ -64,6 +67,36 @@ func genStoreOps(r *core.Rand, c *stCase, n int) {
 			}
 		case 9:
 			c.Cmds = append(c.Cmds, stCmd{Op: "state"})
+		case 10:
+			// an add the store must reject without leaving anything behind
+			var kinds []int
+			if c.Meta {
+				kinds = append(kinds, 1)
+			}
+			if c.Vec != "none" {
+				kinds = append(kinds, 2)
+				if c.Cosine {
+					kinds = append(kinds, 3)
+				}
+			}
+			if len(kinds) > 0 {
+				c.Cmds = append(c.Cmds, stCmd{Op: "badadd", Bad: kinds[r.Intn(len(kinds))], X: r.Bool(), N: r.Intn(3)})
+			}
+		case 11:
+			// the boundary ids 0 and MaxUint32, once each
+			sp := 1 + r.Intn(2)
+			used := false
+			for _, x := range c.Cmds {
+				if x.Op == "addid" && x.Sp == sp {
+					used = true
+				}
+			}
+			if !used {
+				a := genAdd(r, c)
+				a.Op, a.Sp = "addid", sp
+				c.Cmds = append(c.Cmds, a)
+				nAdds++
+			}
 		}
 	}
 }
@@ -93,7 +126,7 @@ func genStore(r *core.Rand, tier string) *stCase {
 	} else {
 		genStoreOps(r, c, n)
 	}
-	c.Cmds = append(c.Cmds, probes(c)...)
+	c.Cmds = append(c.Cmds, kProbes(c)...)
 	c.Cmds = append(c.Cmds, stCmd{Op: "state"}, stCmd{Op: "ls"}, stCmd{Op: "close"}, stCmd{Op: "ls"})
 	return c
 }
@@ -184,7 +217,7 @@ func nonTrivialStore(lines, replies []string) bool {
 func init() {
 	register(&core.Typed[stCase]{
 		StreamName: "store", Prop: "C08",
-		RuleText: "one open store; random sequential histories over add / addid / remove / flush / forced rotate / trigger-compaction / evict-all / vector, text and metadata probes, memtable limits from below one document up, flush thresholds 60 B .. default, compaction thresholds 2..5, templates flat/hnsw/trained ivf/none x text x metadata; the flush and compaction workers take exactly one lock-delimited step per `bg` command (the interleaving is part of the trace), segment goroutines of a search are serialised in the order they happened to start; after the history all modalities are probed and bookkeeping state and directory are compared with the model; thorough adds directed schedules; a case is non-trivial when a search that had to find documents (must>0) ran with at least one registered segment after a worker step / rotation / flush; distinct = distinct request streams",
+		RuleText: "one open store; random sequential histories over add / addid / remove / flush / forced rotate / trigger-compaction / evict-all / vector, text and metadata probes (metadata also through filter GROUPS alone and groups + filters; every modality with a huge k, with k = exactly the size of the previous answer and with one more), rejected adds (unsupported metadata value type, wrong dimension, zero vector under cosine; through Add and AddWithID), the boundary ids 0 and MaxUint32, memtable limits from below one document up, flush thresholds 60 B .. default, compaction thresholds 2..5, templates flat/hnsw/trained ivf/none x text x metadata; the flush and compaction workers take exactly one lock-delimited step per `bg` command (the interleaving is part of the trace), segment goroutines of a search are serialised in the order they happened to start; after the history all modalities are probed and bookkeeping state and directory are compared with the model; thorough adds directed schedules; a case is non-trivial when a search that had to find documents (must>0) ran with at least one registered segment after a worker step / rotation / flush; distinct = distinct request streams",
 		NCases: func(tier string) int {
 			if tier == "thorough" {
 				return 3000
